@@ -244,7 +244,7 @@ func runC12(r *Run) {
 	r.floor("R12.1", 2)
 	r.floor("R12.2", 1)
 	r.floor("R12.3", 24)
-	r.floor("R12.4", 2)
+	r.floor("R12.4", 6)
 	r.floor("R12.5", 1)
 	mem, ok1 := latencyConst(w, "MemoryAccess")
 	l1, ok2 := latencyConst(w, "L1Access")
@@ -398,8 +398,13 @@ func runC12(r *Run) {
 		}
 		ruleCounterMonotone(r, v)
 	}
+	// ---- R12.6: the flush decision depends only on (expected target, resolved target): a branch whose target is
+	// the predicted one costs the same whether taken or not
+	r.floor("R12.6", 18)
+	ruleBranchUnit(r, "R12.6")
 	// ---- R12.4
 	ruleCyclesPositive(r, "R12.4")
+	ruleCyclesByClass(r, "R12.4")
 	if fd, pk := w.Method("risc", "InstructionType", "Cycles"); fd != nil {
 		var sw *ast.SwitchStmt
 		ast.Inspect(fd.Body, func(n ast.Node) bool {
@@ -662,4 +667,65 @@ func chargesOnEveryPath(v *variant, stmts []ast.Stmt, obj types.Object) bool {
 		}
 	}
 	return false
+}
+
+// ruleCyclesByClass: opcodes of one class have one latency: every load
+// (IsMemoryRead) costs the same, every store the same, every branch the same.
+func ruleCyclesByClass(r *Run, rule string) {
+	w := r.W
+	fd, pk := w.Method("risc", "InstructionType", "Cycles")
+	if fd == nil {
+		return
+	}
+	info := pk.TypesInfo
+	lat := map[int64]int64{}
+	ast.Inspect(fd.Body, func(n ast.Node) bool {
+		cc, ok := n.(*ast.CaseClause)
+		if !ok {
+			return true
+		}
+		var val int64 = -1
+		for _, st := range cc.Body {
+			if rs, ok := st.(*ast.ReturnStmt); ok && len(rs.Results) == 1 {
+				if c, ok := constInt64(info.Types[rs.Results[0]]); ok {
+					val = c
+				}
+			}
+		}
+		for _, e := range cc.List {
+			if c, ok := constInt64(info.Types[e]); ok {
+				lat[c] = val
+			}
+		}
+		return true
+	})
+	enum := enumConsts(pk, "InstructionType")
+	for _, class := range []string{"IsMemoryRead", "IsMemoryWrite", "IsConditionalBranch", "IsUnconditionalBranch"} {
+		pfd, ppk := w.Method("risc", "InstructionType", class)
+		if pfd == nil {
+			continue
+		}
+		var sw *ast.SwitchStmt
+		ast.Inspect(pfd.Body, func(n ast.Node) bool {
+			if s, ok := n.(*ast.SwitchStmt); ok && sw == nil {
+				sw = s
+			}
+			return true
+		})
+		if sw == nil {
+			continue
+		}
+		members, _, _ := switchCases(ppk.TypesInfo, sw)
+		vals := map[int64][]string{}
+		for m := range members {
+			vals[lat[m]] = append(vals[lat[m]], enum[m])
+		}
+		var desc []string
+		for v, ns := range vals {
+			sort.Strings(ns)
+			desc = append(desc, fmt.Sprintf("%d: %v", v, ns))
+		}
+		sort.Strings(desc)
+		r.check(len(vals) == 1, rule, "risc.(InstructionType).Cycles:class("+class+")", fd.Pos(), "every opcode of the class %s has the same latency (%s)", class, strings.Join(desc, "; "))
+	}
 }
